@@ -194,8 +194,10 @@ def nexthop_plan(f, nh, sess):
     afi = f >> 16
     vpn = 8 if f in (W.IPV4_VPN, W.IPV6_VPN) else 0
     if len(nh) == 4:
-        if afi == 2:
-            return ('skip',)                 # an IPv4 next hop has no RFC 4760 encoding for AFI 2
+        if afi == 2 and not vpn and f not in (W.IPV6_MC, W.IPV6_SRP):
+            # AFI 2 needs a 16-octet next hop (RFC 4760 3, RFC 2545 3): an IPv4 next hop travels as the
+            # IPv4-mapped IPv6 address ::ffff:a.b.c.d (RFC 4798 2; what GoBGP sends)
+            return ('expect', [0] * 10 + [255, 255] + nh, 1 + 16)
         return ('expect', nh, 1 + vpn + 4)
     if len(nh) == 16:
         return ('expect', nh, 1 + vpn + 16)
